@@ -4,7 +4,7 @@ ENGINES = [
     {
         "name": "symx",
         "path": "/verif/symx",
-        "serves_properties": ["C04", "C07", "C16"],
+        "serves_properties": ["C04", "C07", "C16", "C17"],
         "kind_free_text": "own symbolic executor: geoh5py's real functions run under CPython with the module-global "
         "`np` (and, for file paths, `h5py`) rebound to z3-backed models; re-execution DFS forks on symbolic "
         "branches; obligations are z3 validity queries; counterexamples are replayed on real numpy/h5py",
@@ -57,6 +57,17 @@ CLAIMED = {
         "that merged vertices are the inputs' in order, every merged cell connects the same coordinates as its "
         "input cell, data are concatenated with NaN where lacking, and the inputs are unchanged.",
     ),
+    "C17": _symx(
+        "C17",
+        "bounded symbolic execution of the real centroids / base_refine / parts<->cells code with symbolic sizes, "
+        "origins, rotation/dip (cos/sin uninterpreted) and part labels; z3 validity queries of the format's "
+        "index/centre formulas; counterexamples replayed on real numpy",
+        "bounded symbolic model checking: for each listed grid shape the real BlockModel/Grid2D/Octree.centroids run "
+        "on symbolic delimiters, cell sizes, origin, rotation and dip and z3 proves, per cell, the format's index "
+        "formula and centre position (polynomial identities over uninterpreted cos/sin), the centre count with and "
+        "without explicit origin and cache invalidation after geometry setters; Curve parts->cells->parts is "
+        "explored for all labelings of <=6 vertices. Default octree tiling is evaluated concretely per dimension triple.",
+    ),
     "C07": {
         "engine": "symx",
         "technique": "bounded symbolic execution of the real remove_vertices/remove_cells/values-setter code on a "
@@ -99,6 +110,5 @@ NOT_APPLICABLE = {
     "C13": _NOT_BUILT,
     "C14": _NOT_BUILT,
     "C15": _NOT_BUILT,
-    "C17": _NOT_BUILT,
     "C18": _NOT_BUILT,
 }
